@@ -279,7 +279,9 @@ impl ParquetTable {
                 let ndv_est = if acc.has_int_stats {
                     match (acc.min_i64, acc.max_i64) {
                         (Some(min), Some(max)) if max >= min => {
-                            Some(non_null.min((max - min) as u64 + 1))
+                            // abs_diff is exact in u64 for any i64 pair; the
+                            // full i64 range (2^64 values) saturates.
+                            Some(non_null.min(max.abs_diff(min).saturating_add(1)))
                         }
                         _ => None,
                     }
